@@ -23,7 +23,7 @@ H = 2**255
 
 MODEL_FILES = ["C14L/Sem.v", "C14L/LitBase.v", "C14L/GenLit.v", "C14L/Lit.v", "C14L/Rta.v", "C14L/AssertComb.v", "C14L/Dload.v", "C14L/PhiElim.v"]
 PROOF_FILES = ["C14L/SemProofs.v", "C14L/Pointwise.v", "C14L/Steps.v", "C14L/LitProofs.v", "C14L/RtaProofs.v",
-               "C14L/AcProofs.v", "C14L/SegRepl.v", "C14L/AcStep.v", "C14L/PropsSmall.v"]
+               "C14L/AcProofs.v", "C14L/SegRepl.v", "C14L/AcStep.v", "C14L/PhiElimProofs.v", "C14L/PropsSmall.v"]
 MODEL_DEPS = ["C14/RangeBase.v", "C14/GenRange.v", "C14/GenRangeClients.v", "C14/RangeFix.v"]
 IMPORTS = ("From Coq Require Import NArith.\nFrom Verif Require Import Base.PyInt C14.RangeBase C14.RangeFix C14L.Sem C14L.LitBase "
            "C14L.GenLit C14L.Lit C14L.Rta C14L.AssertComb C14L.Dload.\nOpen Scope string_scope.\nOpen Scope Z_scope.\n"
@@ -822,8 +822,8 @@ def part_phi_model(ctx, model_ok):
         for s, r in zip(samples, res):
             if r != [1, 1]:
                 bad += 1
-                if bad <= 2:
-                    ctx.violation("theorem-broken", "phi_check_sound does not apply: the validator rejects the output of PhiEliminationPass (" + s["name"] + ")",
+                if bad <= 2 and not any("PhiEliminationPass changes" in v["name"] for v in ctx.violations):
+                    ctx.violation("theorem-broken", "phi_check (validator of PhiEliminationPass; phi_edge/repl/transfer_sound_partial) rejects the output of the pass (" + s["name"] + ")",
                                   {"venom": s["text"], "after": s["text_after"], "verdict [phi_check, output = phi_apply]": r, "certificate": s["As"][:2000], "replaced": s["Rs"]})
     ctx.corr["phi_elimination_family"] = {"members": len(samples), "phis_replaced": sum(s["replaced"] for s in samples), "rejected": bad}
     return len(samples)
@@ -1067,7 +1067,7 @@ def part_corpus(ctx, model_ok):
                     else:
                         st["rejected"] += 1
                         if st["rejected"] <= 2:
-                            thm = {"lit": "lit_pass_correct", "rta": "rta_pass_correct", "ac": "ac_pass_correct", "dl": "dl_pass (exact model) + lower_dload_sound", "phi": "phi_check_sound"}[kind]
+                            thm = {"lit": "lit_pass_correct", "rta": "rta_pass_correct", "ac": "ac_pass_correct", "dl": "dl_pass (exact model) + lower_dload_sound", "phi": "phi_check (validator; soundness proved for its three local steps only)"}[kind]
                             ctx.violation("theorem-broken", f"{thm} does not apply: the output of {names[kind]} on a corpus function "
                                           f"({s_['name']}) is not the model's output", {"theorem": thm, "verdict": r, "function_before": s_["text_before"][:5000],
                                                                                         "function_after": s_["text_after"][:5000]})
@@ -1085,6 +1085,9 @@ def part_small_passes(ctx):
     model_ok = all((COQ / f[:-2]).with_suffix(".vo").exists() for f in MODEL_FILES) and not b.get("gen_err")
     nviol = len(ctx.violations)
     total = 0
+    t0 = time.time()
+    total += part_phi_dload(ctx)
+    ctx.log(f"C14L phi/dload search: {time.time() - t0:.1f}s")
     for nm, fn in (("literals", part_lit), ("revert_to_assert", part_rta), ("assert_combiner", part_ac), ("lower_dload model", part_dload_model), ("phi_elimination validator", part_phi_model)):
         t0 = time.time()
         k = fn(ctx, model_ok)
@@ -1094,9 +1097,6 @@ def part_small_passes(ctx):
         t0 = time.time()
         total += part_safe_table(ctx)
         ctx.log(f"C14L safe-between table: {time.time() - t0:.1f}s")
-    t0 = time.time()
-    total += part_phi_dload(ctx)
-    ctx.log(f"C14L phi/dload search: {time.time() - t0:.1f}s")
     t0 = time.time()
     total += part_evm(ctx)
     ctx.log(f"C14L back end + pyrevm: {time.time() - t0:.1f}s")
